@@ -77,4 +77,21 @@ theorem stoiAccepts_of_specInt {s : List Char} (h : SpecInt s) : stoiAccepts s =
     · have : isSpace '+' = false := by decide
       simp [stoiAccepts, this, dropSign, hc]
 
+theorem plus_not_mantissa_char : ¬ (isDigit '+' = true ∨ '+' = '.') := by decide
+
+/-- a basic real is never empty and never starts with `+` -/
+theorem basicReal_head (s : List Char) (h : SpecBasicReal s) : s ≠ [] ∧ s.head? ≠ some '+' := by
+  obtain ⟨sign, b, hs, rfl, hall, _, c, hc, hd⟩ := h
+  have hb : b ≠ [] := by intro hb; subst hb; simp at hc
+  rcases hs with rfl | rfl
+  · refine ⟨by simpa using hb, ?_⟩
+    cases b with
+    | nil => exact absurd rfl hb
+    | cons x xs =>
+      intro hx
+      simp at hx
+      subst hx
+      exact plus_not_mantissa_char (hall '+' (by simp))
+  · exact ⟨by simp, by simp⟩
+
 end Cellml.Num
